@@ -557,6 +557,9 @@ class Agent(dbus.service.Object):
                            item.transfer_id, total_len, mtu)
         if mtu is None or total_len <= (mtu - 4):
             # no segmentation
+            if total_len > 0xFFFFF:
+                # the message length field has 20 bits
+                raise RuntimeError('Bundle size {} too large for one message'.format(total_len))
             msg = MessageHead()/BundlePdu(data)
             yield msg
         else:
